@@ -459,10 +459,8 @@ func c01KeyAtRank(c *Ctx, a *sketchAnchors, rule string) {
 				sorts := false
 				if len(helper.Blocks) > 0 {
 					for _, in := range helper.Blocks[0].Instrs {
-						if call, ok := in.(*ssa.Call); ok {
-							if fn, ok := call.Common().Value.(*ssa.Function); ok && fn == pr.sort {
-								sorts = true
-							}
+						if call, ok := in.(*ssa.Call); ok && pr.isSortCall(newTermCtx(c.P), call) {
+							sorts = true
 						}
 					}
 				}
